@@ -18,7 +18,7 @@ FN_NAMES = {
     334: "from_box_bytes::<[T]>", 335: "BoxBytes into_raw_parts/from_raw_parts + drop", 341: "pod_collect_to_vec",
     351: "try_zeroed_box", 352: "try_zeroed_slice_box", 353: "try_zeroed_vec", 354: "zeroed_rc/arc(+slice)",
     355: "Zeroable::zeroed / write_zeroes / fill_zeroes (plain data)", 361: "fill_zeroes with a panicking destructor",
-    362: "write_zeroes with a panicking destructor", 371: "TransparentWrapper ref/slice/value methods",
+    362: "write_zeroes with a panicking destructor", 363: "fill_zeroes over zero-sized droppable values", 364: "write_zeroes of a zero-sized droppable value", 371: "TransparentWrapper ref/slice/value methods",
     372: "TransparentWrapperAlloc container methods", 373: "TransparentWrapper over [T], str, dyn Trait",
     381: "Rc handle history", 382: "Arc handle history (one thread per operation)",
 }
@@ -26,7 +26,7 @@ PROPS = {
     "C09": set(range(301, 308)) | {372, 381, 382} | {321, 322, 323, 331, 332, 335},
     "C10": set(range(301, 308)) | {381, 382},
     "C11": set(range(311, 318)) | {333, 334},
-    "C12": {351, 352, 353, 354, 355, 361, 362},
+    "C12": {351, 352, 353, 354, 355, 361, 362, 363, 364},
     "C13": {371, 372, 373},
     "C15": set(range(321, 336)),
     "C16": {341},
